@@ -55,50 +55,7 @@ def run(chk, tier):
         letter = table(s, "usize", [(1, C("S", "&str")), (LAST_SEQ, C("E", "&str"))], C("I", "&str"))
         want = adt(CI, "ChunkIdentifier", (("site", F("site")), ("volume", F("volume")), ("name", name_term(s, letter)), ("date_time", NONE)))
         expect_c(chk, "VN", CI + "::with_sequence", got, want, fn.where(), "same site and volume, name = prefix-{seq:03}-{S at 1, E at 55, else I}")
-    # ---- next_chunk
-    got, fn = eval_or_blind(chk, ev, "VN", CI + "::next_chunk", [slf])
-    if got is not None and tpl is not None:
-        sq = call(CI + "::sequence", slf)
-        s = ("vfld", sq, "Some", "0")
-        s1 = binop("Add", s, C(1, "usize"), "usize")
-        letter = ite(eq_c(s1, "usize", LAST_SEQ), C("E", "&str"), C("I", "&str"))
-        ident = adt(CI, "ChunkIdentifier", (("site", call("alloc::string::ToString::to_string", F("site"))), ("volume", F("volume")), ("name", name_term(s1, letter)), ("date_time", NONE)))
-        # split the found term into the two regimes
-        inner = None
-        if got[0] == "cases" and got[1] == ("discr", sq):
-            arms = {("some" if any(lo <= 1 <= hi for lo, hi in rs) else "none"): x for rs, x in got[3]}
-            chk.ob("VN", CI + "::next_chunk", arms.get("none") == NONE, "no successor when the name has no parsable sequence", fn.where(), key="no-sequence")
-            inner = arms.get("some")
-        if inner is None or inner[0] != "cases" or inner[1] != s:
-            chk.ob("VN", CI + "::next_chunk", False, "successor is not a two-regime function of the sequence: %s" % show(got)[:200], fn.where(), key="shape")
-        else:
-            low = [x for rs, x in inner[3] if rs == ((0, LAST_SEQ - 1),)]
-            high = [x for rs, x in inner[3] if rs == ((LAST_SEQ, 2 ** 64 - 1),)]
-            chk.ob("VN", CI + "::next_chunk", len(low) == 1 and len(high) == 1, "the sequence regimes are s < 55 and s >= 55 (found %s)" % [rs_show(rs) for rs, x in inner[3]], fn.where(), key="regimes")
-            if len(low) == 1:
-                expect_c(chk, "VN", CI + "::next_chunk", low[0], some(adt(NC, "Sequence", (("0", ident),))), fn.where(), "below 55: same site/volume, sequence + 1, letter E exactly at 55", key="successor-in-volume")
-            if len(high) == 1:
-                hv = high[0]
-                v = fld(F("volume"), "0")
-                okk = hv[0] == "adt" and hv[2] == "Some" and hv[3][0][1][0] == "adt" and hv[3][0][1][2] == "Volume"
-                nv = hv[3][0][1][3][0][1] if okk else None
-                if okk and nv[0] in ("cases", "ite"):
-                    # VolumeIndex::new's debug assertion leaves a panic leaf for out-of-range values: keep it as a leaf
-                    nv = ("adt", VI, "VolumeIndex", (("0", sym.map_leaves(nv, lambda x: x[3][0][1] if (x[0] == "adt" and x[1] == VI) else x)),))
-                okk = okk and nv[0] == "adt" and nv[1] == VI
-                if not okk:
-                    chk.ob("VN", CI + "::next_chunk", False, "at 55 the successor is not NextChunk::Volume(VolumeIndex(..)): %s" % show(hv)[:200], fn.where(), key="successor-volume")
-                else:
-                    f = nv[3][0][1]
-                    bad = []
-                    for k in range(1, ROTATION + 1):
-                        r = common.at_point(f, v, C(k, "usize"))
-                        exp = 1 if k == ROTATION else k + 1
-                        if r != C(exp, "usize"):
-                            bad.append((k, show(r)[:40]))
-                    chk.ob("VN", CI + "::next_chunk", not bad, "next volume = v + 1 for 1..=998 and 1 for 999 (closed form %s tabulated over the whole rotation domain)" % show(f)[:120] if not bad else
-                           "next volume is wrong for %d volume(s), e.g. %s (closed form %s)" % (len(bad), bad[:3], show(f)[:160]), fn.where(), key="rotation")
-                    chk.notes["rotation_points_tabulated"] = ROTATION
+    next_chunk_checks(chk, prog, ev, tpl, slf, name_term)
     # ---- readers
     ev0 = sym.Evaluator(prog)
     got, fn = eval_or_blind(chk, ev0, "VN", CI + "::sequence")
@@ -147,6 +104,53 @@ def run(chk, tier):
     panics.check_no_panic(chk, prog, [CI + "::next_chunk"], "successor on the rotation domain", seeds=seeds, only=[CI + "::next_chunk"], ctx_callees=[VI + "::new"], rule="R-PANIC")
 
 
+def next_chunk_checks(chk, prog, ev, tpl, slf, name_term):
+    # ---- next_chunk
+    got, fn = eval_or_blind(chk, ev, "VN", CI + "::next_chunk", [slf])
+    if got is not None and tpl is not None:
+        sq = call(CI + "::sequence", slf)
+        s = ("vfld", sq, "Some", "0")
+        s1 = binop("Add", s, C(1, "usize"), "usize")
+        letter = ite(eq_c(s1, "usize", LAST_SEQ), C("E", "&str"), C("I", "&str"))
+        ident = adt(CI, "ChunkIdentifier", (("site", call("alloc::string::ToString::to_string", F("site"))), ("volume", F("volume")), ("name", name_term(s1, letter)), ("date_time", NONE)))
+        # split the found term into the two regimes
+        inner = None
+        if got[0] == "cases" and got[1] == ("discr", sq):
+            arms = {("some" if any(lo <= 1 <= hi for lo, hi in rs) else "none"): x for rs, x in got[3]}
+            chk.ob("VN", CI + "::next_chunk", arms.get("none") == NONE, "no successor when the name has no parsable sequence", fn.where(), key="no-sequence")
+            inner = arms.get("some")
+        if inner is None or inner[0] != "cases" or inner[1] != s:
+            chk.ob("VN", CI + "::next_chunk", False, "successor is not a two-regime function of the sequence: %s" % show(got)[:200], fn.where(), key="shape")
+        else:
+            low = [x for rs, x in inner[3] if rs == ((0, LAST_SEQ - 1),)]
+            high = [x for rs, x in inner[3] if rs == ((LAST_SEQ, 2 ** 64 - 1),)]
+            chk.ob("VN", CI + "::next_chunk", len(low) == 1 and len(high) == 1, "the sequence regimes are s < 55 and s >= 55 (found %s)" % [rs_show(rs) for rs, x in inner[3]], fn.where(), key="regimes")
+            if len(low) == 1:
+                expect_c(chk, "VN", CI + "::next_chunk", low[0], some(adt(NC, "Sequence", (("0", ident),))), fn.where(), "below 55: same site/volume, sequence + 1, letter E exactly at 55", key="successor-in-volume")
+            if len(high) == 1:
+                hv = high[0]
+                v = fld(F("volume"), "0")
+                okk = hv[0] == "adt" and hv[2] == "Some" and hv[3][0][1][0] == "adt" and hv[3][0][1][2] == "Volume"
+                nv = hv[3][0][1][3][0][1] if okk else None
+                if okk and nv[0] in ("cases", "ite"):
+                    # VolumeIndex::new's debug assertion leaves a panic leaf for out-of-range values: keep it as a leaf
+                    nv = ("adt", VI, "VolumeIndex", (("0", sym.map_leaves(nv, lambda x: x[3][0][1] if (x[0] == "adt" and x[1] == VI) else x)),))
+                okk = okk and nv[0] == "adt" and nv[1] == VI
+                if not okk:
+                    chk.ob("VN", CI + "::next_chunk", False, "at 55 the successor is not NextChunk::Volume(VolumeIndex(..)): %s" % show(hv)[:200], fn.where(), key="successor-volume")
+                else:
+                    f = nv[3][0][1]
+                    bad = []
+                    for k in range(1, ROTATION + 1):
+                        r = common.at_point(f, v, C(k, "usize"))
+                        exp = 1 if k == ROTATION else k + 1
+                        if r != C(exp, "usize"):
+                            bad.append((k, show(r)[:40]))
+                    chk.ob("VN", CI + "::next_chunk", not bad, "next volume = v + 1 for 1..=998 and 1 for 999 (closed form %s tabulated over the whole rotation domain)" % show(f)[:120] if not bad else
+                           "next volume is wrong for %d volume(s), e.g. %s (closed form %s)" % (len(bad), bad[:3], show(f)[:160]), fn.where(), key="rotation")
+                    chk.notes["rotation_points_tabulated"] = ROTATION
+
+
 def rng(a, b):
     return adt("core::ops::range::Range", "Range", (("start", C(a, "usize")), ("end", C(b, "usize"))))
 
@@ -158,3 +162,18 @@ def strip_utc(t):
     if t and t[0] == "const" and "Utc" in str(t[1]):
         return ("Utc",)
     return tuple(strip_utc(x) if isinstance(x, tuple) else x for x in t)
+
+
+def successor_only(chk, prog):
+    """the successor checks alone (used by C18, whose delivery order rests on them)"""
+    wit = common.witness()
+    ev = sym.Evaluator(prog, opaque_local=[CI + "::name_prefix", CI + "::sequence"])
+    evw = sym.Evaluator(wit)
+    slf = P("self")
+    prefix = call(CI + "::name_prefix", slf)
+    ref = evw.eval_fn(W + "chunk_name_template", [P("a"), P("b"), P("c")])
+    tpl = ref[1] if ref[0] == "fmt" else None
+
+    def name_term(seq_term, letter_term):
+        return ("fmt", tpl, (("disp", prefix), ("disp", seq_term), ("disp", letter_term)))
+    next_chunk_checks(chk, prog, ev, tpl, slf, name_term)
